@@ -1,4 +1,6 @@
 (* name -> extracted acceptor *)
 let all : (string * (Model.event list -> bool)) list = [
   ("accepts", Model.accepts);
+  ("C12", Model.chk_C12);
+  ("C12_nowait", Model.chk_C12_nowait);
 ]
